@@ -283,7 +283,8 @@ Section DescribeP.
                exists ser, ser_cmds (snd s) = Ok ser) /\
     zlen hm = zlen (i_pubs i) /\
     forall_res (check_pub hm) (i_pubs i) = Ok tt /\
-    exists v, i_value i = Some v.
+    (exists v, i_value i = Some v) /\
+    is_some (i_prev_tx i) || is_some (i_prev_out i) = true.
 
   Lemma input_checks_ok hm qm qn i m n v :
     input_checks hm qm qn i = Ok (m, n, v) ->
@@ -292,11 +293,11 @@ Section DescribeP.
     match qn with Some n0 => n0 = n | None => n = zlen hm end.
   Proof.
     unfold input_checks, PsbtDescribe.input_checks. intros H.
-    bsplit H. destruct a. bsplit H. bsplit H. bsplit H. bsplit H. destruct a1 as [m' n'].
+    bsplit H. destruct a. bsplit H. bsplit H. bsplit H. bsplit H. bsplit H. destruct a1 as [m' n'].
     bsplit H. bsplit H. bsplit H. bsplit H. bsplit H.
     injection H as <- <- <-.
     destruct (i_value i) as [v'|] eqn:Ev; [|discriminate]. injection Hb7 as <-.
-    apply Z.eqb_eq in Hc.
+    apply Z.eqb_eq in Hc0.
     repeat split.
     - assumption.
     - destruct (i_witness i), (i_redeem i); try discriminate; auto.
@@ -304,6 +305,7 @@ Section DescribeP.
     - assumption.
     - destruct a4. assumption.
     - exists v'. exact Ev.
+    - exact Hc.
     - destruct a1. destruct qm as [m0|]; [|exact I]. apply check_ok in Hb3. now apply Z.eqb_eq in Hb3.
     - destruct a2. destruct qn as [n0|]; apply check_ok in Hb4; now apply Z.eqb_eq in Hb4.
   Qed.
@@ -700,7 +702,7 @@ Section DescribeP.
     intros H Hin. apply describe_inv in H.
     destruct H as (hm & vs & Heff & _ & _ & _ & _ & _ & _ & _ & _ & _ & _ & _ & Hn & _ & HFi & _).
     rewrite Forall_forall in HFi.
-    destruct (HFi i Hin) as (Hval & Hex & (s0 & Hp & Hq & _) & Hlen & Hpubs & Hv).
+    destruct (HFi i Hin) as (Hval & Hex & (s0 & Hp & Hq & _) & Hlen & Hpubs & Hv & Hrec).
     pose proof (quorum_of_std _ _ _ Hq) as Hstd.
     exists hm, (snd s0). repeat split; try assumption; try lia.
     - unfold pick_script in Hp. destruct (i_witness i) as [w|]; [injection Hp as <-; now left|].
@@ -710,6 +712,28 @@ Section DescribeP.
     - destruct (validate_in_commit i s0 _ _ spk Hval Hex Hp Hstd H) as [Hc _]. exact Hc.
     - destruct (validate_in_commit i s0 _ _ spk Hval Hex Hp Hstd H) as [_ Hk]. exact Hk.
     - intros np Hnp. apply check_pub_ok. now apply (forall_res_ok _ _ Hpubs).
+  Qed.
+
+  (* (fix 786fa3c) every input of a summarised PSBT carries a UTXO record, so the commitment of the spent
+     scriptPubKey to the evaluated script holds for EVERY input *)
+  Lemma accepted_input_has_record hm0 p s i :
+    describe hm0 p = Ok s -> In i (p_ins p) ->
+    exists spk, in_spk i = Ok (Some spk) /\
+      exists sc, (i_witness i = Some sc \/ (i_witness i = None /\ i_redeem i = Some sc)) /\
+                 std_multisig (s_m s) (s_n s) sc /\ in_commits i spk sc /\
+                 forall np, In np (i_pubs i) -> In (Push (np_key np)) sc.
+  Proof.
+    intros H Hin. pose proof H as Hd. apply describe_inv in H.
+    destruct H as (hm & vs & _ & _ & _ & _ & _ & _ & _ & _ & _ & _ & _ & _ & _ & _ & HFi & _).
+    rewrite Forall_forall in HFi.
+    destruct (HFi i Hin) as (Hval & _ & _ & _ & _ & _ & Hrec).
+    assert (Hspk : exists spk, in_spk i = Ok (Some spk)).
+    { unfold validate_in, PsbtDescribe.validate_in in Hval. bsplit Hval. clear Hval.
+      destruct a as [spk|]; [eauto|]. apply in_spk_none in Hb. destruct Hb as [E1 E2].
+      rewrite E1, E2 in Hrec. discriminate. }
+    destruct Hspk as [spk Hspk]. exists spk. split; [assumption|].
+    destruct (accepted_input_sound hm0 p s i Hd Hin) as (hm' & sc & _ & _ & Hs & Hstd & _ & _ & Hcom & _).
+    exists sc. destruct (Hcom spk Hspk) as [Hc Hk]. auto.
   Qed.
 
   (* ------------------------------------------------------------ (3) the tamper catalogue *)
@@ -764,7 +788,9 @@ Section DescribeP.
   (* all change keys from one cosigner (a fingerprint used twice) *)
   | T_one_cosigner o : In o (p_outs p) -> ~ NoDup (map np_xfp (o_pubs o)) -> tampered hm p
   (* second change output *)
-  | T_second_change : (2 <= length (filter is_change (p_outs p)))%nat -> tampered hm p.
+  | T_second_change : (2 <= length (filter is_change (p_outs p)))%nat -> tampered hm p
+  (* an input that carries neither UTXO record (fix 786fa3c) *)
+  | T_in_no_utxo i : In i (p_ins p) -> i_prev_tx i = None -> i_prev_out i = None -> tampered hm p.
 
   Lemma effective_nonempty hm0 p hm : hm0 <> [] -> effective_map hm0 p hm -> hm = hm0.
   Proof. intros Hne [H|[H _]]; [assumption|contradiction]. Qed.
@@ -788,7 +814,8 @@ Section DescribeP.
                    |i spk sc Hi Hspk Hsc Hnc|i w r Hi Hw Hr|i spk sc np Hi Hspk Hsc Hnp Hnk
                    |i np Hi Hnp Hnd|i Hi Hcnt|o np Ho Hnp Hnd
                    |i j sci scj m n Hi Hj Hsi Hsj Hstd Hnstd|i o sci sco m n Hi Ho Hc Hsi Hso Hstd Hnstd
-                   |o sc Ho Hc Hso Hncom|o Ho Hc Hso|o sc np Ho Hso Hnp Hnk|o Ho Hc Hcnt|o Ho Hnd|H2].
+                   |o sc Ho Hc Hso Hncom|o Ho Hc Hso|o sc np Ho Hso Hnp Hnk|o Ho Hc Hcnt|o Ho Hnd|H2
+                   |i Hi Hnt Hno].
     - destruct (HI i Hi) as (hm' & sc & _ & _ & _ & _ & _ & Hprev & _). now destruct (Hprev pt Hpt).
     - destruct (HI i Hi) as (hm' & sc & _ & _ & _ & _ & _ & Hprev & _).
       destruct (Hprev pt Hpt) as (_ & u & Hu & _). congruence.
@@ -837,6 +864,17 @@ Section DescribeP.
       destruct (HO o Ho Hc) as (hm' & sc' & keys & _ & _ & _ & _ & _ & _ & _ & _ & _ & _ & Hndx & _).
       rewrite Ep in Hndx. contradiction.
     - apply summary_arithmetic in Hd. destruct Hd as (vs & _ & _ & _ & _ & _ & _ & _ & _ & Hl). lia.
+    - destruct (accepted_input_has_record hm p s i Hd Hi) as (spk & Hspk & _).
+      unfold in_spk in Hspk. rewrite Hnt, Hno in Hspk. discriminate.
+  Qed.
+
+  (* an input with neither UTXO record makes describe refuse, whatever the map and the rest of the PSBT *)
+  Lemma no_utxo_record_rejected hm0 p i :
+    In i (p_ins p) -> i_prev_tx i = None -> i_prev_out i = None -> describe hm0 p = Err.
+  Proof.
+    intros Hi Hnt Hno. destruct (describe hm0 p) as [s|] eqn:Hd; [exfalso|reflexivity].
+    destruct (accepted_input_has_record hm0 p s i Hd Hi) as (spk & Hspk & _).
+    unfold in_spk in Hspk. rewrite Hnt, Hno in Hspk. discriminate.
   Qed.
 End DescribeP.
 
@@ -895,7 +933,7 @@ Section Refute.
     assert (Hfee : tx_fee xpub (psbt1 k x (z :: t) a) = Ok (a + 0 - (1000 + 0))) by reflexivity.
     assert (Hic : input_checks hash160 sha256 xpub derive [(x, (xp, 0))] None None (in1 k x (z :: t) a)
                   = Ok (1, 1, a)).
-    { unfold input_checks. rewrite Hvi. cbn [bind i_witness i_redeem in1 pick_script i_pubs].
+    { unfold input_checks. rewrite Hvi. cbn [bind i_witness i_redeem in1 pick_script i_pubs i_prev_tx i_prev_out is_some orb check].
       change (zlen [(x, (xp, 0))]) with 1. change (zlen [np1 k x (z :: t)]) with 1.
       cbn [Z.eqb Pos.eqb check bind]. unfold quorum_of. cbn [fst snd]. rewrite Hwq.
       cbn [bind Z.eqb Pos.eqb check]. rewrite Hser. cbn [bind forall_res]. rewrite Hcp. reflexivity. }
